@@ -21,6 +21,7 @@ func main() {
 	worker.Register(c10.March{Fast: true})
 	worker.Register(c11.Scenario{})
 	worker.Register(c12.Scenario{})
+	worker.Register(c12.Scenario{Race: true})
 	worker.Register(c13.Scenario{})
 	worker.Register(c14.Scenario{})
 	worker.Main()
